@@ -83,7 +83,7 @@ def consume(target, queue, depth=0):
     return consume(left, queue, depth + 1) and consume(right, queue, depth + 1)
 
 
-def run_subdivide(nodes, flat, as_tuples=False, judge_curve=True):
+def run_subdivide(nodes, flat, as_tuples=False, judge_curve=True, monitor=True):
     """nodes: tuple of (handle_in, point, handle_out) tuples.  Returns [(clause, msg)], splits.
     as_tuples: hand the points over as (x, y) tuples instead of [x, y] lists (the function
     itself inserts tuples, so both representations occur in its own intermediate states)."""
@@ -114,9 +114,10 @@ def run_subdivide(nodes, flat, as_tuples=False, judge_curve=True):
         return real_bezmisc.beziersplitatt(bez, par)
 
     core.rejected(plot_utils.subdivideCubicPath, [[(0, 0), (0, 0), (1, 1)], [(2, 2)]], 0.5)
-    plot_utils.bezmisc = types.SimpleNamespace(beziersplitatt=split_hook)
+    if monitor:
+        plot_utils.bezmisc = types.SimpleNamespace(beziersplitatt=split_hook)
     try:
-        with core.watchdog(5.0 + 0.5 * len(nodes)):
+        with core.watchdog(5.0 + 0.5 * len(nodes) if monitor else 120.0):
             ret = plot_utils.subdivideCubicPath(s_p, flat)
     except LoopBudget:
         return [("loop", f"{desc} made more than {budget} splits")], len(states)
@@ -200,6 +201,15 @@ def needle_node_lists():
                                                          (float(d_x), float(d_y))))
                 out.append((nodes, flat))
     return out
+
+
+def deep_node_lists():
+    """One strongly curved piece at a very fine flatness: the control polygon is ~6e9 flatness
+    units off the chord, so about 2^16 pieces are needed and the left-most one is reached only
+    after 16 halvings in a row (a cap on successive splits, a recursion budget).  Judged on
+    flatness and node survival, without the per-split monitor."""
+    arch = (((0.0, 0.0), (0.0, 0.0), (0.0, 1024.0)), ((1024.0, 1024.0), (1024.0, 0.0), (1024.0, 0.0)))
+    return [(arch, 2.0 ** -23)]
 
 
 def one_piece(ctrl):
@@ -295,10 +305,12 @@ def _chunk(args):
         as_tuples = kind == "one_t"
         nodes = one_piece(item) if kind in ("one", "one_t") else \
             (two_pieces(item) if kind == "two" else item)
-        if kind == "needle":
+        if kind in ("needle", "deep"):
             nodes, flats = item[0], [item[1]]
         for flat in flats:
-            bad, splits = run_subdivide(nodes, flat, as_tuples, judge_curve=kind != "needle")
+            bad, splits = run_subdivide(nodes, flat, as_tuples,
+                                        judge_curve=kind not in ("needle", "deep"),
+                                        monitor=kind != "deep")
             part.count("calls")
             part.count("states", splits + 1)
             part.count("transitions", max(splits, 1))
@@ -309,10 +321,11 @@ def _chunk(args):
                 part.violation(f"{clause}:{kind}:{item}:{flat}", msg,
                                {"kind": "curve", "nodes": [[list(p) for p in n] for n in nodes],
                                 "flat": flat, "as_tuples": as_tuples,
-                                "judge_curve": kind != "needle"})
+                                "judge_curve": kind not in ("needle", "deep"),
+                                "monitor": kind != "deep"})
     if items:
         mid = items[len(items) // 2]
-        part.sample({"family": kind, "control_points": [list(p) for p in mid] if kind not in ("raw", "needle")
+        part.sample({"family": kind, "control_points": [list(p) for p in mid] if kind not in ("raw", "needle", "deep")
                      else str(mid), "flatness": list(flats)}, limit=1)
     return part
 
@@ -343,6 +356,7 @@ def run(ctx):
     for chunk in core.split(ones[::ctx.pick(5, 1)], 16):
         jobs.append(("similar", chunk, [0.3, 1.0]))
     jobs.append(("needle", needle_node_lists(), None))
+    jobs.insert(0, ("deep", deep_node_lists(), None))       # the long one first
     part = core.fan_out(ctx, _chunk, jobs)
     cnt = part.counters
     coverage = {
@@ -355,7 +369,7 @@ def run(ctx):
                 f"{flats}; two-piece node lists over a 5-point sub-lattice (5^7, every 9th in "
                 "quick); the one-piece curves again with points given as tuples (flatness 0.3, 1.0); "
                 "empty and single-node lists; six chained lists of 10..60 nodes; every 5th "
-                "36 x 2 long nearly straight pieces (flatness 4e-9 of the chord, control points 0.5..8 flatness units off it); (thorough: every) one-piece curve again unscaled but shifted by (2^31, -2^30), and scaled by 2^16 and shifted by (2^20, "
+                "one strongly curved piece at flatness 2^-23 (about 2^16 pieces, 16 halvings in a row); 36 x 2 long nearly straight pieces (flatness 4e-9 of the chord, control points 0.5..8 flatness units off it); (thorough: every) one-piece curve again unscaled but shifted by (2^31, -2^30), and scaled by 2^16 and shifted by (2^20, "
                 "-2^21), which must give the image of the unscaled result; states = node lists observed after every "
                 "split; non-trivial = calls that split at least once; all inputs distinct",
         "samples": core.rotate(part.samples, ctx.seed, 4),
@@ -374,4 +388,4 @@ def replay(case):
     if case["kind"] == "similar":
         return [m for _c, m in check_similarity(nodes, case["flat"])]
     return [m for _c, m in run_subdivide(nodes, case["flat"], case.get("as_tuples", False),
-                                         case.get("judge_curve", True))[0]]
+                                         case.get("judge_curve", True), case.get("monitor", True))[0]]
